@@ -432,7 +432,7 @@ PROPS.update({
                       "Cross-model theorems (Proofs/Exec_stream.v): the callbacks the frame logic of Model/Exec.v makes below the top level ARE such a well-nested stream (a forest of call trees with the Aspects of each CALL's pre and post join point), "
                       "hence the call tracer fed the callbacks of a real nested CALL appends exactly the frames of what ran. "
                       "The executable model is run against the real tracers on every case (the full JSON is compared).",
-        "level_note": COMMON_NOTE + "Modelled, not verified: JSON marshalling (gen_callframe_json.go) is covered only by the correspondence (every field is parsed back from the JSON); revertReason, execContext, logs (withLog) and block/tx context fields are not modelled; "
+        "level_note": COMMON_NOTE + "Modelled, not verified: JSON marshalling (gen_callframe_json.go) is covered only by the correspondence (every field is parsed back from the JSON); event logs (withLog: collected from LOG steps, cleared for failed frames at CaptureTxEnd) are modelled and compared on real executions; revertReason, execContext and block/tx context fields are not modelled; "
                       "the EVM reports a revert only with the vm.ErrExecutionReverted sentinel (text comparison in the model); flat_c is fuelled (8192 > call depth limit). "
                       "Observed and modelled as is: calls to precompiles made by pre-transaction Aspects are not filtered by the flat tracer (it learns the precompile set at CaptureStart).",
         "rule": "streams: (a) enumerated shapes pretx 0..2 x pre 0..3 x post 0..3 x calls-per-Aspect 0..2 x body 0..2 x inner-call Aspects 0..2 (every 7th at quick tier, all 1296 at thorough), (b) random trees of depth <= 3 with random widths, addresses incl. precompiles, "
